@@ -67,8 +67,13 @@ Definition reset_if_idle (fixed : bool) (s : qstate) : qstate :=
 Definition is_named (n : N) (x : item) : bool :=
   match kd x with Named m => N.eqb n m | _ => false end.
 
+(* the harness' plain broadcast of group g invalidates the queued plain broadcasts of the same group and, when
+   g is 6..8, those of groups 0..5 with the same residue mod 3 (several at once) *)
 Definition is_plain_grp (g : N) (x : item) : bool :=
-  match kd x with Plain h => N.eqb g h | _ => false end.
+  match kd x with
+  | Plain h => N.eqb g h || ((6 <=? g)%N && (h <? 6)%N && N.eqb (g mod 3) (h mod 3))
+  | _ => false
+  end.
 
 Fixpoint delete_all (fixed : bool) (xs : list item) (s : qstate) : qstate :=
   match xs with [] => s | x :: xs' => delete_all fixed xs' (delete_item fixed x s) end.
